@@ -64,9 +64,13 @@ type preset struct {
 }
 
 var presets = map[string]preset{
-	"e2":   {E: 2, LowP: 2, MedP: 4, HighP: 8, Cooldown: 2, EvictThreshold: 3, EvictInterval: 4, TP: 0, Hayabusa: 0, Unit: 1_000_000},
-	"e3":   {E: 3, LowP: 3, MedP: 6, HighP: 12, Cooldown: 3, EvictThreshold: 4, EvictInterval: 6, TP: 6, Hayabusa: 3, Unit: 1_000_000},
-	"e4":   {E: 4, LowP: 4, MedP: 8, HighP: 16, Cooldown: 8, EvictThreshold: 6, EvictInterval: 8, TP: 4, Hayabusa: 0, Unit: 25_000_000},
+	"e2": {E: 2, LowP: 2, MedP: 4, HighP: 8, Cooldown: 2, EvictThreshold: 3, EvictInterval: 4, TP: 0, Hayabusa: 0, Unit: 1_000_000},
+	"e3": {E: 3, LowP: 3, MedP: 6, HighP: 12, Cooldown: 3, EvictThreshold: 4, EvictInterval: 6, TP: 6, Hayabusa: 3, Unit: 1_000_000},
+	"e4": {E: 4, LowP: 4, MedP: 8, HighP: 16, Cooldown: 8, EvictThreshold: 6, EvictInterval: 8, TP: 4, Hayabusa: 0, Unit: 25_000_000},
+	// eviction checks every epoch, threshold of 6 epochs: the early checks run at heights BELOW the threshold while
+	// validators are offline only briefly (an eviction there is premature; unsigned height arithmetic must not wrap)
+	"ev":   {E: 2, LowP: 2, MedP: 4, HighP: 8, Cooldown: 2, EvictThreshold: 12, EvictInterval: 2, TP: 0, Hayabusa: 0, Unit: 1_000_000},
+	"ev3":  {E: 3, LowP: 3, MedP: 6, HighP: 12, Cooldown: 3, EvictThreshold: 20, EvictInterval: 3, TP: 3, Hayabusa: 0, Unit: 25_000_000},
 	"fine": {E: 2, LowP: 2, MedP: 4, HighP: 6, Cooldown: 2, EvictThreshold: 2, EvictInterval: 2, TP: 0, Hayabusa: 0, Unit: 1},
 }
 
@@ -956,8 +960,13 @@ func (w *world) onlineUpdates() {
 	if err != nil || len(leaders) > len(w.vals) {
 		return
 	}
+	early := w.block < w.p.EvictThreshold && w.p.EvictInterval < w.p.EvictThreshold
 	for _, l := range leaders {
-		if l.Active && w.chance(4) {
+		if early && l.Active && w.chance(30) {
+			w.opSetOnline(l.Address, false) // offline for a block or two before an eviction check below the threshold
+		} else if early && !l.Active && w.chance(45) {
+			w.opSetOnline(l.Address, true)
+		} else if l.Active && w.chance(4) {
 			w.opSetOnline(l.Address, false)
 		} else if !l.Active && w.chance(22) {
 			w.opSetOnline(l.Address, true)
